@@ -823,6 +823,12 @@ func (x *run) checkMerge(rs *repState, remote string, pre *obs, outs []mergeOutc
 		x.ntProbes["bug-"+expect] = true
 		if missingAuthor && !x.faults && !x.on("C09") {
 			// without faults identities always travel with the bugs
+			if x.on("C02") {
+				// (C02 runs make identities diverge: a refused identity must not keep the others from
+				// being merged, and this is how it shows first)
+				x.violate("remote-only-entity-missing", "the author identity of bug %s, fetched from %s with the bug, is not local on %s after the merge, in a run without faults", id[:7], remote, rs.r.Name)
+				continue
+			}
 			x.res.HarnessErr = fmt.Sprintf("author identity missing in a fault-free run (bug %s on %s)", id[:7], rs.r.Name)
 			return
 		}
@@ -1049,7 +1055,7 @@ func (x *run) quiesce() {
 			for hi := range x.w.Hubs {
 				sim.SetRandStep(uint64(700000 + round*100 + rs.r.Idx*10 + hi))
 				st := &sim.Step{Id: 700000 + round*100 + rs.r.Idx*10 + hi, Op: "pull", R: rs.r.Idx, H: hi}
-				if !x.faults && x.prop != "C09" && rs.r.Idx%2 == 0 {
+				if !x.faults && x.prop != "C09" && x.prop != "C02" && rs.r.Idx%2 == 0 {
 					// what a user does: the one-call pull (RepoCache.Pull, identity.Pull + bug.Pull). It
 					// must bring in whatever an earlier fetch already left in the remote-tracking refs.
 					st.K = "pull-api"
